@@ -305,6 +305,66 @@ def same(x, y):
             p, q = (x, y) if isinstance(x, PW) else (y, x)
             return same(p.t, q) and same(p.f, q)
         if x.cond != y.cond:
-            raise Unsupported("two different piecewise conditions")
+            return _same_on_intervals(x, y)
         return same(x.t, y.t) and same(x.f, y.f)
     return x.equals(y)
+
+
+def _cf_leaves(cf, out):
+    if cf is None:
+        raise Unsupported("two different piecewise conditions")
+    if cf[0] in ("And", "Or"):
+        for c_ in cf[1]:
+            _cf_leaves(c_, out)
+    else:
+        out.append(cf)
+
+
+def _cf_affine(fr):
+    """fr = c1 * atom + c0 with rational c1 != 0, c0 -> (atom, c1, c0)"""
+    if fr.d != Poly.const(1):
+        raise Unsupported("two different piecewise conditions")
+    atom, c1, c0 = None, None, 0
+    for m, c in fr.n.t.items():
+        if not m:
+            c0 = c
+        elif len(m) == 1 and m[0][1] == lf(1) and atom in (None, m[0][0]):
+            atom, c1 = m[0][0], c
+        else:
+            raise Unsupported("two different piecewise conditions")
+    if atom is None or not c1:
+        raise Unsupported("two different piecewise conditions")
+    return atom, c1, c0
+
+
+def _cf_eval(cf, v):
+    if cf[0] == "And":
+        return all(_cf_eval(c_, v) for c_ in cf[1])
+    if cf[0] == "Or":
+        return any(_cf_eval(c_, v) for c_ in cf[1])
+    _, c1, c0 = _cf_affine(cf[1])
+    w = c1 * v + c0
+    return {"Gt": w > 0, "Ge": w >= 0, "Lt": w < 0, "Le": w <= 0}[cf[0]]
+
+
+def _same_on_intervals(x, y):
+    """two piecewise values whose conditions are comparisons of ONE value with constants: they are the same function iff they agree on every
+    open interval between the thresholds (False as soon as one interval differs; agreement everywhere except AT the thresholds is left undecided)"""
+    leaves = []
+    _cf_leaves(x.cfrac, leaves)
+    _cf_leaves(y.cfrac, leaves)
+    atoms, pts = set(), set()
+    for op, fr in leaves:
+        a, c1, c0 = _cf_affine(fr)
+        atoms.add(a)
+        pts.add(Fraction(-c0) / Fraction(c1))
+    if len(atoms) != 1:
+        raise Unsupported("two different piecewise conditions")
+    pts = sorted(pts)
+    samples = [pts[0] - 1] + [(a + b) / 2 for a, b in zip(pts, pts[1:])] + [pts[-1] + 1]
+    for v in samples:
+        px = x.t if _cf_eval(x.cfrac, v) else x.f
+        py = y.t if _cf_eval(y.cfrac, v) else y.f
+        if not same(px, py):
+            return False
+    raise Unsupported("piecewise conditions that agree between their thresholds (they may differ at a threshold)")
